@@ -65,7 +65,7 @@ func uqs(x *sx.N) *sx.N { return sx.Call("unquote-splicing", x) }
 func (g *c07Gen) template(k int, m *c07Macro) *sx.N {
 	p := func(i int) *sx.N { return sx.Y(fmt.Sprintf("p%d", i)) }
 	var t *sx.N
-	choice := g.r.Intn(12)
+	choice := g.r.Intn(15)
 	if m.rest {
 		choice = 100 + g.r.Intn(7)
 	}
@@ -123,6 +123,33 @@ func (g *c07Gen) template(k int, m *c07Macro) *sx.N {
 		g.feat["tmpl:set-global"] = true
 		t = sx.Call("set", sx.Q(uq(sx.Y("p1"))), uq(p(m.req)))
 		t = sx.Call("progn", sx.Call("set", sx.QY(fmt.Sprintf("set-by-%s", m.name)), uq(p(1))), uq(p(m.req)))
+	case 12:
+		// the WHOLE expansion is not a call form: the argument form itself, a quoted
+		// argument form (one or two marks, written as marks or as (quote ...))
+		g.feat["tmpl:whole-expansion-is-arg"] = true
+		switch g.r.Intn(5) {
+		case 0:
+			t = uq(p(1))
+		case 1:
+			t = sx.Q(uq(p(1)))
+		case 2:
+			t = sx.Q(sx.Q(uq(p(1))))
+		case 3:
+			t = sx.Call("quote", uq(p(1)))
+		default:
+			t = sx.Q(sx.Call("quote", uq(p(1))))
+		}
+	case 13:
+		// no quasiquote at all: the macro body returns a datum
+		g.feat["tmpl:whole-expansion-is-datum"] = true
+		return fw.Pick(g.r, []*sx.N{sx.I(5), sx.S("str"), sx.Y(":kw"), sx.Nil(), sx.QY("lex"), sx.Q(sx.QY("sym")), sx.Q(sx.Q(sx.QY("sym"))), sx.Q(sx.Q(sx.L(sx.Y("a"), sx.Y("b")))),
+			sx.Q(sx.Call("list", sx.I(1), sx.I(2))), sx.Q(sx.Q(sx.Call("list", sx.I(1), sx.I(2)))), sx.Call("list", sx.QY("quote"), sx.Y("p1")), sx.Call("list", sx.QY("list"), sx.Y("p1"), sx.Y("p1"))})
+	case 14:
+		g.feat["tmpl:whole-expansion-quoted-list"] = true
+		t = sx.Q(sx.L(uq(p(1)), sx.Y("b"), sx.L(uq(p(m.req)))))
+		if g.r.Chance(1, 2) {
+			t = sx.Q(t)
+		}
 	case 100:
 		g.feat["tmpl:splice-last"] = true
 		t = sx.Call("list", uq(p(1)), uqs(sx.Y("body")))
@@ -317,7 +344,7 @@ func c07Macros(w *fw.W, idx int) {
 		}
 		q := sx.Q(c.Clone()).String()
 		full := r3.Run("me", "(format-string \"{}\" (macroexpand "+q+"))")
-		step := r3.Run("me1", `(labels ((fix (f n) (let ([g (macroexpand-1 f)]) (if (or (<= n 0) (string= (format-string "{}" g) (format-string "{}" f))) g (fix g (- n 1)))))) (format-string "{}" (fix `+q+` 60)))`)
+		step := r3.Run("me1", `(labels ((fix (f n) (let ([g (macroexpand-1 f)]) (if (or (<= n 0) (not (list? g)) (nil? g) (string= (format-string "{}" g) (format-string "{}" f))) g (fix g (- n 1)))))) (format-string "{}" (fix `+q+` 60)))`)
 		w.Eval(2)
 		// probes inside macro bodies fire at every expansion; only the resulting forms are compared
 		if full.Outcome() != step.Outcome() {
